@@ -1243,7 +1243,7 @@ fn oracle_stack<W: BitArray>(rng: &mut Rng, iters: usize, rep: &mut Report) {
                         }
                     }
                     _ => {
-                        desc.push_str(" | iter (as_decoder, len)");
+                        desc.push_str(" | len");
                         let d = coder.as_decoder();
                         if d.len() != ghost.len() {
                             rep.fail("C18", format!("{} => as_decoder().len() = {} expected {}", desc, d.len(), ghost.len()));
